@@ -26,7 +26,14 @@ def c04(tier, seed, dst, facts):
     by_node = {}
     for fi in range(n):
         by_node.setdefault(NODE_OF[fi], []).append(fi)
-    for ni, feats in sorted(by_node.items()):
+    chunks = []
+    for ni, fl in sorted(by_node.items()):
+        if len(fl) > 4:      # two harnesses for the big nodes (manner: 8 features, dorsal: 6): shorter critical path
+            half = (len(fl) + 1) // 2
+            chunks += [(ni, "_a", fl[:half]), (ni, "_b", fl[half:])]
+        else:
+            chunks.append((ni, "", fl))
+    for ni, sfx, feats in chunks:
         blocks = []
         for fi in feats:
             sub = NODE_OF[fi] >= 3
@@ -42,7 +49,7 @@ def c04(tier, seed, dst, facts):
         kani::cover!(exp && b == BinMod::Negative);
         @cover_absent@
     }""", fi=fi, fn=fname(fi), cover_absent='kani::cover!(!exp && ref_feat(&s, %d).is_none() && b == BinMod::Negative);' % fi if sub else ""))
-        nm = "c04_match_%s" % NODE_NAME[ni]
+        nm = "c04_match_%s%s" % (NODE_NAME[ni], sfx)
         hs.append(G.H(nm, "match-one-feature", "subrule", G.T(HDR + """
 fn @name@() {
     let sub = mk_sub(RuleType::Substitution);
@@ -75,7 +82,7 @@ fn @name@() {
         kani::cover!(!pos && t != s);
         @cover_absent@
     }""", fi=fi, fn=fname(fi), cover_absent=('kani::cover!(pos && ref_feat(&s, %d).is_none());\n        kani::cover!(!pos && ref_feat(&s, %d).is_none());' % (fi, fi)) if sub else ""))
-        nm = "c04_apply_%s" % NODE_NAME[ni]
+        nm = "c04_apply_%s%s" % (NODE_NAME[ni], sfx)
         hs.append(G.H(nm, "apply-one-feature", "subrule", G.T(HDR + """
 fn @name@() {
     let alphas: RefCell<HashMap<char, Alpha>> = RefCell::new(HashMap::new());
@@ -386,7 +393,7 @@ fn c04_twin_reach() {
 """, unwind=unwind), functions=["Segment::apply_seg_mods"], symbolic="as apply-one-feature", shape="assert(false) twin", expect="fail", unwind=unwind, stubs=STUBS))
 
     return {
-        "harnesses": hs, "cap_s": 1200, "single_jobs": 8,
+        "harnesses": hs, "cap_s": 1200, "jobs": 10,
         "bounds": ["unwind %d = FType::count()+2 read from src/lexer.rs (loops over the 26 feature and 8 node slots); Kani's unwinding assertions are on" % unwind,
                    "alpha shapes: hashbrown/SipHash loops bounded to 3 via --unwindset, loop ids read from `cbmc --show-loops` on this build's goto binary; unwinding assertions on",
                    "matrices with one slot (all 26 features, 8 nodes) and two slots (%d pairs this run); three-slot matrices: %d this run; four and more are not enumerated" % (len(pairs), len(triples)),
